@@ -59,8 +59,20 @@ pub fn format_element(e: &Element, indent: usize) -> String {
 /// Format a vector of attributes as a string with a leading space
 pub fn format_attrs(attrs: &[Attribute]) -> String {
     let mut result = String::new();
+    let mut names_seen: Vec<String> = Vec::with_capacity(attrs.len());
     for attr in attrs {
-        result += format!(" {}='{}'", attr.name().local_part(), &handle_special_chars(attr.value())).as_str();
+        // only the local part is written (no namespace declarations are written either), except for the predeclared 'xml' prefix;
+        // two attributes must not end up with the same name ('xml:lang' and 'lang') -- the result would not be well-formed XML
+        let name = if attr.name().namespace_uri() == Some("http://www.w3.org/XML/1998/namespace") {
+            format!("xml:{}", attr.name().local_part())
+        } else {
+            attr.name().local_part().to_string()
+        };
+        if names_seen.contains(&name) {
+            continue;
+        }
+        result += format!(" {}='{}'", name, &handle_special_chars(attr.value())).as_str();
+        names_seen.push(name);
     }
     result
 }
